@@ -9,6 +9,8 @@ use simple_sds::ops::{Push, Vector};
 use simple_sds::raw_vector::{PushRaw, RawVector, RawVectorWriter};
 use std::path::PathBuf;
 
+thread_local! { static EXTEND_TURN: std::cell::Cell<usize> = std::cell::Cell::new(0); }
+
 pub enum AnyWriter { Raw(RawVectorWriter), Int(IntVectorWriter) }
 pub enum Mirror { Raw(RawVector), Int(IntVector) }
 
@@ -41,7 +43,14 @@ impl AnyWriter {
             },
             (AnyWriter::Int(w), Mirror::Int(v)) => match op {
                 "push" => { let x = set_to_u64(&c["v"]); w.push(x); v.push(x); "ok" },
-                "extend" => { let xs: Vec<u64> = c["vs"].as_array().unwrap().iter().map(set_to_u64).collect(); w.extend(xs.clone()); v.extend(xs); "ok" },
+                "extend" => {
+                    let xs: Vec<u64> = c["vs"].as_array().unwrap().iter().map(set_to_u64).collect();
+                    // alternately through an exact-size iterator and through one whose size_hint has lower bound 0
+                    let turn = EXTEND_TURN.with(|t| { t.set(t.get() + 1); t.get() });
+                    if turn % 2 == 0 { w.extend(xs.clone()); } else { w.extend(xs.clone().into_iter().filter(|_| true)); }
+                    if turn % 2 == 0 { v.extend(xs.into_iter().filter(|_| true)); } else { v.extend(xs); }
+                    "ok"
+                },
                 "push_many" => {
                     let n = c["n"].as_u64().unwrap() as usize;
                     let mut x = c["seed"].as_u64().unwrap_or(1);
